@@ -17,9 +17,10 @@ EXPLANATION = (
 
 
 def check(ctx, run):
-    run.rules_run = ['R05.1', 'R05.2', 'R05.4', 'R05.5', 'R05.6', 'R05.7', 'R05.8', 'R05.9', 'R05.12']
+    run.rules_run = ['R05.1', 'R05.2', 'R05.4', 'R05.5', 'R05.6', 'R05.7', 'R05.8', 'R05.9', 'R05.12', 'R05.14']
     walkers.w_init(ctx, run, 'R05.1', floor=15)
     walkers.w_advance(ctx, run, 'R05.2', floor=24)
+    walkers.w_pair(ctx, run, 'R05.14', floor=65)
     accessors.r05_4(ctx, run)
     accessors.r05_5(ctx, run)
     accessors.r05_6(ctx, run)
